@@ -107,6 +107,7 @@ def run_floats(ctx, n):
 def run_ints(ctx, n):
     """integers: Default/Exact (exact path) laws for every dtype; explicit FuzzyEquality on same-type ints"""
     rng = ctx.rng
+    groups, lines, lidx = [], [], []
     for _ in range(n):
         dt = rng.choice(list(c09.INTS))
         lo, hi = c09.INTS[dt]
@@ -120,32 +121,42 @@ def run_ints(ctx, n):
         t1 = (["num", rng.choice([0.0, 1e-3, 0.5])], ["num", rng.choice([0.0, 1.0, 2.0])])
         t2 = (["num", t1[0][1] * 2 + 0.1], ["num", t1[1][1] + 1.0])
         for kind in ("default", "exact", "fuzzy"):
-            v = {"aa": predio.run_impl(kind, t1[0], t1[1], A, A), "ab1": predio.run_impl(kind, t1[0], t1[1], A, B),
-                 "ba1": predio.run_impl(kind, t1[0], t1[1], B, A), "ab2": predio.run_impl(kind, t2[0], t2[1], A, B)}
-            case = {"kind": kind, "a": A, "b": B, "t1": t1, "t2": t2}
             unsigned = dt.startswith("u")
             has_min = (not unsigned) and (lo in a or lo in b)
-            ctx.case(("int", kind, dt, tuple(a), tuple(b), str(t1)), nontrivial=(a != b),
-                     tags=["int", "int-" + kind, dt], sample=None)
+            g = {"kind": kind, "dt": dt, "A": A, "B": B, "t1": t1, "t2": t2, "unsigned": unsigned, "has_min": has_min,
+                 "model": {}}
             # correspondence with the model (same-type ints are modelled for all three predicates)
-            if ctx.driver_ok and not has_min and all(abs(x) < 2 ** 53 for x in a + b):
-                reps = ctx.lean([predio.enc_pred(kind, t1[0], t1[1], A, B), predio.enc_pred(kind, t1[0], t1[1], B, A)])
-                for r, name in zip(reps, ("ab1", "ba1")):
-                    if "model" in r and r["model"] != v[name] and (kind != "fuzzy" or True):
-                        ctx.mismatch(dict(case, evaluation=name), v[name], r["model"])
-            cls = None
-            if kind == "fuzzy" and unsigned:
-                cls = "F12"      # known: unsigned subtraction wraps
-            if kind == "fuzzy" and has_min:
-                cls = cls or "F13-absmin"
-            if v["aa"] != "T":
-                ctx.violation(dict(case, law="reflexive"), v["aa"], "T", cls=cls, what="integer array does not equal itself")
-            if v["ab1"] != v["ba1"]:
-                ctx.violation(dict(case, law="symmetric"), f"{v['ab1']}/{v['ba1']}", "equal verdicts", cls=cls,
-                              what="verdict depends on the argument order (integers)")
-            if v["ab1"] == "T" and v["ab2"] != "T":
-                ctx.violation(dict(case, law="monotone"), f"t1:{v['ab1']} t2:{v['ab2']}", "pass stays pass", cls=cls,
-                              what="enlarging the tolerances turned a pass into a fail (integers)")
+            if not has_min and all(abs(x) < 2 ** 53 for x in a + b):
+                for name, (x, y) in {"ab1": (A, B), "ba1": (B, A)}.items():
+                    lines.append(predio.enc_pred(kind, t1[0], t1[1], x, y)); lidx.append((len(groups), name))
+            groups.append(g)
+    if ctx.driver_ok and lines:
+        for (gi, name), r in zip(lidx, ctx.lean(lines)):
+            groups[gi]["model"][name] = r
+    for g in groups:
+        kind, dt, A, B, t1, t2 = g["kind"], g["dt"], g["A"], g["B"], g["t1"], g["t2"]
+        a, b = A["v"], B["v"]
+        v = {"aa": predio.run_impl(kind, t1[0], t1[1], A, A), "ab1": predio.run_impl(kind, t1[0], t1[1], A, B),
+             "ba1": predio.run_impl(kind, t1[0], t1[1], B, A), "ab2": predio.run_impl(kind, t2[0], t2[1], A, B)}
+        case = {"kind": kind, "a": A, "b": B, "t1": t1, "t2": t2}
+        ctx.case(("int", kind, dt, tuple(a), tuple(b), str(t1)), nontrivial=(a != b),
+                 tags=["int", "int-" + kind, dt], sample=None)
+        for name, r in g["model"].items():
+            if "model" in r and r["model"] != v[name]:
+                ctx.mismatch(dict(case, evaluation=name), v[name], r["model"])
+        cls = None
+        if kind == "fuzzy" and g["unsigned"]:
+            cls = "F12"      # known: unsigned subtraction wraps
+        if kind == "fuzzy" and g["has_min"]:
+            cls = cls or "F13-absmin"
+        if v["aa"] != "T":
+            ctx.violation(dict(case, law="reflexive"), v["aa"], "T", cls=cls, what="integer array does not equal itself")
+        if v["ab1"] != v["ba1"]:
+            ctx.violation(dict(case, law="symmetric"), f"{v['ab1']}/{v['ba1']}", "equal verdicts", cls=cls,
+                          what="verdict depends on the argument order (integers)")
+        if v["ab1"] == "T" and v["ab2"] != "T":
+            ctx.violation(dict(case, law="monotone"), f"t1:{v['ab1']} t2:{v['ab2']}", "pass stays pass", cls=cls,
+                          what="enlarging the tolerances turned a pass into a fail (integers)")
 
 
 def impl_scaled(base, A, B, comp=False):
